@@ -113,6 +113,38 @@ def run(c, prog, ctx):
     c.sample({"rule": "R2", "v0": acc0, "v1plus": [acc1[0], acc1[-1]] if acc1 else []})
     c.stats["length_table_cells"] = len(table)
 
+    # ---- R2b padding table (canonicity of the data part): k padding bits must all be zero
+    fpad = prog.fn("blech32::decode::CheckedHrpstring::<'s>::validate_padding")
+    bp = fpad.body
+    gp = Guards(bp)
+    pp_ = Prov(bp)
+    masks = {}
+    for bi in sorted(bp.reachable()):
+        for st in bp.stmts(bi):
+            if st["k"] != "assign" or st["pl"]["p"] or st["rv"]["k"] not in ("bin", "use"):
+                continue
+            v = pp_._rvalue(st["rv"], True)
+            cd = cond_desc(bp, gp.conds(bi))
+            pin = [l for d, l in cd if d.endswith(" Rem 8)") and re.match(r"^=\d+$", l)]
+            if not pin:
+                continue
+            k = int(pin[0][1:])
+            if v[0] == "bin" and v[1] == "Gt" and v[2][0] == "bin" and v[2][1] == "BitAnd" and v[3] == ("const", "u8", 0) and v[2][3][0] == "const":
+                masks[k] = v[2][3][2]
+            elif v[0] == "const" and v[2] == 0 and k == 0:
+                masks[0] = 0
+    want_m = {0: 0, 1: 1, 2: 3, 3: 7, 4: 15}
+    c.inst("R2.padding-masks", "k padding bits are tested with mask 2^k - 1 (k = 0..4), more than 4 is TooMuch", masks == want_m,
+           "masks per padding length %s, expected %s: a narrower mask accepts non-zero padding, so two strings decode to one address" % (masks, want_m), fpad.where(), fpad.path)
+    ep = err_returns(bp)
+    c.inst("R2.padding-errors", "padding > 4 bits => TooMuch; non-zero padding => NonZero",
+           any("TooMuch" in e[1] and any(" Gt 4)" in d and l == "true" for d, l in e[2]) for e in ep) and any("NonZero" in e[1] for e in ep),
+           "errors %s" % [(e[1], e[2][-1:]) for e in ep], fpad.where(), fpad.path)
+    fvs = prog.fn("blech32::decode::CheckedHrpstring::<'s>::validate_segwit")
+    order = [callee_name(t).split("::")[-1] for bi, t in fvs.body.calls(lambda t: "validate_" in callee_name(t))]
+    c.inst("R2.padding-checked", "validate_segwit runs validate_padding()? and validate_witness_program_length()?", order == ["validate_padding", "validate_witness_program_length"],
+           "calls %s" % order, fvs.where(), fvs.path)
+
     # ---- R3 layout
     fb = prog.fn("address::Address::from_bech32")
     b = fb.body
